@@ -267,3 +267,57 @@ func c18StoreScope(module string, entries []string) []string {
 	}
 	return out
 }
+
+// The fingerprint under which the finding is listed in known_findings.json (checks/props/C18.py
+// returns the same string).
+const c18QuarFingerprint = "C18: quarantine export drops accepted_from_addresses"
+
+// c18QuarShapeOn: the multi-sender scenario is a genuine violation on the unchanged tree.  It is
+// part of the check as soon as the coordinator has listed it in known_findings.json (any status:
+// once the defect is repaired the scenario keeps running and must pass), or when
+// VERIF_C18_QUAR_MULTI=1 asks for it; VERIF_C18_QUAR_MULTI=0 switches it off.
+func c18QuarShapeOn() bool {
+	switch os.Getenv("VERIF_C18_QUAR_MULTI") {
+	case "1":
+		return true
+	case "0":
+		return false
+	}
+	for _, p := range []string{os.Getenv("VERIF_KNOWN_FINDINGS"), "../known_findings.json", "known_findings.json", "/verif/known_findings.json"} {
+		if p == "" {
+			continue
+		}
+		bz, err := os.ReadFile(p)
+		if err != nil {
+			continue
+		}
+		return strings.Contains(string(bz), c18QuarFingerprint) || strings.Contains(string(bz), "accepted_from_addresses")
+	}
+	return false
+}
+
+// c18QuarantineCase emits the scenario as one case.
+func c18QuarantineCase(t *testing.T, w *CaseWriter) {
+	if !c18QuarShapeOn() {
+		w.Count("quarantine_multi_sender_scenario_off")
+		return
+	}
+	o, err := c18QuarantineMulti(t)
+	desc := map[string]any{"kind": "scenario", "scenario": "quarantine_multi_sender", "label": "quarantine-multi-sender",
+		"driven": o.ok, "genesis_has_multi_sender_record": o.GenesisHasMulti, "partially_accepted_record_reached": o.PartialAccepted,
+		"genesis_json_equal": o.GenesisJSONEq, "store_equal": o.StoreEq, "store_only_exporting": o.StoreOnlyA, "store_only_imported": o.StoreOnlyB,
+		"filtered_query_equal": o.QueryFromEq, "receiver_balance_exporting": o.BalAfterA, "receiver_balance_imported": o.BalAfterB,
+		"records_left_exporting": o.RecordsAfterA, "records_left_imported": o.RecordsAfterB}
+	if err != nil {
+		desc["error"] = err.Error()
+	}
+	obs := []string{
+		fmt.Sprintf("(\"quarantine_multi_sender:scenario_driven\", %s)", coqBool(o.ok && o.GenesisHasMulti && o.PartialAccepted)),
+		fmt.Sprintf("(\"quarantine_multi_sender:store_equal_after_import\", %s)", coqBool(!o.ok || o.StoreEq)),
+		fmt.Sprintf("(\"quarantine_multi_sender:filtered_query_equal_after_import\", %s)", coqBool(!o.ok || o.QueryFromEq)),
+		fmt.Sprintf("(\"quarantine_multi_sender:same_messages_same_funds_after_import\", %s)", coqBool(!o.ok || o.FundsEq)),
+	}
+	w.Add(fmt.Sprintf("CScenario \"quarantine-multi-sender\" %s", coqList(obs)), desc)
+	w.Count("quarantine_multi_sender_scenario")
+	w.Nontrivial("quarantine-multi-sender")
+}
